@@ -388,7 +388,7 @@ pub fn run() {
         rep.violation(v);
     }
     if counters.get("entries_checked").copied().unwrap_or(0) == 0 || counters.get("replaced_by_nodes").copied().unwrap_or(0) == 0 {
-        mc::machinery("C12 vacuous (no table entries or no NODES-driven replacement)");
+        rep.vacuous("C12 vacuous (no table entries or no NODES-driven replacement)");
     }
     rep.finish();
 }
